@@ -163,6 +163,16 @@ def build(ast):
     if k == "fixstr":
         return ps.FixStr(ast[1])
     if k == "dict":
+        if len(ast[1]) == 1 and len(ast[2]) == 1:
+            # the scalar and the one-element-set forms of the constructor (`_as_list`) mean the same one-entry table
+            form = (sum(map(ord, repr(ast))) // 7) % 3
+            try:
+                if form == 1 and not isinstance(ast[1][0], (list, dict, set)):
+                    return ps.Dict(ast[1][0], ast[2][0])
+                if form == 2:
+                    return ps.Dict({ast[1][0]}, {ast[2][0]})
+            except TypeError:
+                pass
         return ps.Dict(list(ast[1]), list(ast[2]))
     if k == "spaces":
         return ps.Spaces(ast[1], ast[2])
@@ -174,10 +184,16 @@ def build(ast):
         return ps.IntSpaces(ast[1], ast[2], ast[3])
     if k == "multidigit":
         return ps.MultiDigit(ast[1], ast[2])
-    if k == "oneof":
-        return ps.OneOf(*[build(a) for a in ast[1]])
-    if k == "tupl":
-        return ps.Tupl(*[build(a) for a in ast[1]])
+    if k in ("oneof", "tupl"):
+        # positional arguments, one list, or a mixture of both: the constructors flatten them
+        cls = ps.OneOf if k == "oneof" else ps.Tupl
+        subs = [build(a) for a in ast[1]]
+        form = len(repr(ast)) % 3
+        if form == 1:
+            return cls(subs)
+        if form == 2 and len(subs) >= 2:
+            return cls(subs[0], subs[1:])
+        return cls(*subs)
     if k == "seq":
         return ps.Seq(build(ast[1]), ast[2])
     if k == "grid":
